@@ -222,6 +222,16 @@ func (c *Ctx) AddExecutions(n int64) {
 	c.st.Transitions += n
 }
 
+// AddDistinct reports distinct non-trivial cases counted by the scenario body
+// itself (a measured number, see the check's rule).
+func (c *Ctx) AddDistinct(n int64) {
+	if c.keepLog {
+		return
+	}
+	c.st.Distinct += n
+	c.st.DistinctNT += n
+}
+
 // Count adds to a named anti-vacuity counter.
 func (c *Ctx) Count(name string, n int64) {
 	c.counters[name] += n
@@ -413,7 +423,9 @@ func (e *explorer) account(c *Ctx, prefixLen int) {
 		if !c.trivial && c.obsN > 0 {
 			st.DistinctNT++
 		}
-		if !c.noRerun && (len(st.Samples) < 4 || (st.Distinct%997 == 0 && len(st.Samples) < 8)) {
+		// (a failing execution is re-run five times by violation(); the
+		// determinism self-check uses passing executions)
+		if !c.noRerun && len(c.fails) == 0 && (len(st.Samples) < 4 || (st.Distinct%997 == 0 && len(st.Samples) < 8)) {
 			e.sample(c)
 		}
 	}
